@@ -608,7 +608,7 @@ def known_C05(prog, impl, monline, mname):
 PENDING["C05"] = dict(
     title="The instruction stack preserves the program's control flow",
     projection="stacks",
-    extra_files=["C05b", "C05c", "C05d", "C05e"],
+    extra_files=["C05b", "C05c", "C05d", "C05e", "C05f"],
     monitors=[("C05q", "accepted_wf"), ("C05i", "accepted_wf"), ("C10r", "accepted_wf"), ("C05v", "accepted_wf")],
     known_class=known_C05,
     domain="accepted_wf",
